@@ -786,7 +786,9 @@ func (se *SpecEnv) ghostGet2(g *GhostVar, k1, k2 string) Value {
 	inner.pkg = g.Pkg
 	t := inner.resolveType(g.T)
 	srt := se.e.sr.sortOf(t)
-	se.e.noteMapType("G!"+g.Name, t, "elem")
+	if g.Name != "bufdata" {
+		se.e.noteMapType("G!"+g.Name, t, "elem")
+	}
 	m := se.e.heapGet(se.s, "G!"+g.Name, arr("Int", arr("Int", srt)))
 	if strings.HasPrefix(g.Name, "buf") {
 		return Value{T: sel2(se.e.ctx.resolveSel(m, k1), k2), Sort: srt, GoT: t}
